@@ -282,7 +282,7 @@ func (h *H) runIdx(p *Program) {
 			for _, ir := range rc.Reports {
 				rep.Hit("idx:index-maps-compared")
 				if !ir.ok() && prop == "C25" && ir.nullRowsMissingFromUnique() {
-					rep.Hit("idx:known:unique-index-misses-null-rows")
+					rep.Hit("idx:unique-index-misses-null-rows")
 					rep.Violate("C25:unique-index-misses-null-rows", fmt.Sprintf("after stmt %d (%s) in root %s: UNIQUE index %s.%s has no entry for the rows with a NULL in an indexed column: stores %v but the rows give %v (index rebuilt by a merge: creation.BuildUniqueProllyIndex skips the Put together with the collision check when the key has NULLs)", idx, st.SQL, rc.Where, ir.Table, ir.Index, ir.Stored, ir.Expected), p)
 				} else if !ir.ok() && prop == "C25" {
 					rep.Violate("C25:index-differs-from-rows:"+kw, fmt.Sprintf("after stmt %d (%s) [class %s] in root %s: index %s.%s stores %v but the rows give %v", idx, st.SQL, class, rc.Where, ir.Table, ir.Index, ir.Stored, ir.Expected), p)
